@@ -108,6 +108,25 @@ fn suite(run: &Run, a: &[f64], n: usize, tag: &str) {
             r.data.v.clone()
         }), &bm, m, tag);
     }
+    // right-hand sides of very small and very large magnitude (the bound is relative to ‖B‖)
+    for (si, sc) in [2f64.powi(-70), 1e-200, 1e150].into_iter().enumerate() {
+        let b: Vec<f64> = rhs(n, si % 2).iter().map(|v| v * sc).collect();
+        let tg = format!("{}, B*{:e}", tag, sc);
+        judge(run, 0, class, a, n, guard(|| linalg::solve(a, &b)), &b, 1, &tg);
+        judge(run, 3, class, a, n, guard(|| mat.solve(&Vector::new(b.clone())).v.clone()), &b, 1, &tg);
+        let m = 2;
+        let mut bm = vec![0.0; n * m];
+        for c in 0..m {
+            let col = rhs(n, c + si);
+            for i in 0..n {
+                bm[i * m + c] = col[i] * sc;
+            }
+        }
+        judge(run, 1, class, a, n, guard(|| linalg::solve_sys(a, &bm)), &bm, m, &tg);
+        let bmat = Matrix::new(bm.clone(), n as i32, m as i32);
+        judge(run, 4, class, a, n, guard(|| mat.solve(&bmat).data.v.clone()), &bm, m, &tg);
+    }
+    run.regime("rhs:scaled");
     // inverses: A·X = I column by column
     let mut id = vec![0.0; n * n];
     for i in 0..n {
@@ -138,7 +157,7 @@ fn suite(run: &Run, a: &[f64], n: usize, tag: &str) {
 }
 
 pub fn run(run: &Run) {
-    run.rule("(a) every nonsingular n×n matrix over {0,±1,±2,2^-30} for n≤2 and over {0,±1,2^-30} for n=3 (thorough: all six letters for n=3, {0,±1} for n=4); (b) families minmat, pascal, tridiag, ddom, P·D·T, symmetric-indefinite, graded for every order 1..=20 (32 thorough) × every single-entry deviation × row transpositions × single diagonal sign flips × scalings {2^-60,1,2^40}; (c) deterministic pseudo-random dense and SPD (AᵀA+I) matrices of every order 5..=32; six entry points, right-hand sides with 1,2,3,6 columns; singular cases (exact determinant 0 mod 2^61-1) are skipped; non-trivial = routed to Cholesky, needs pivoting, or scaled");
+    run.rule("(a) every nonsingular n×n matrix over {0,±1,±2,2^-30} for n≤2 and over {0,±1,2^-30} for n=3 (thorough: all six letters for n=3, {0,±1} for n=4); (b) families minmat, pascal, tridiag, ddom, P·D·T, symmetric-indefinite, graded for every order 1..=20 (32 thorough) × every single-entry deviation × row transpositions × single diagonal sign flips × scalings {2^-60,1,2^40}; (c) deterministic pseudo-random dense and SPD (AᵀA+I) matrices of every order 5..=32; six entry points, (d) SPD matrices with one triangle scaled by 1+δ, δ from 2^-52 to 1e-3; six entry points, right-hand sides with 1,2,3,6 columns and of scale 2^-70, 1e-200, 1e150; singular cases (exact determinant 0 mod 2^61-1) are skipped; non-trivial = routed to Cholesky, needs pivoting, or scaled");
     let t30 = 2f64.powi(-30);
     // (a) small matrices
     let l2: Vec<f64> = vec![0.0, 1.0, -1.0, 2.0, -2.0, t30];
@@ -269,7 +288,34 @@ pub fn run(run: &Run) {
             }
         }
     });
-    for r in ["route:symmetric-positive-diagonal", "route:general", "route:tiny-asymmetric-positive-diagonal", "route:symmetric-other"] {
+    // (d) nearly symmetric positive definite matrices: the upper triangle of an SPD matrix times
+    // (1+δ). Whatever route is taken, the system that is solved must be the one that was given.
+    let deltas = [2f64.powi(-52), 2f64.powi(-50), 1e-14, 1e-12, 1e-10, 1e-8, 1e-6, 1e-3];
+    run.bound("nearly symmetric", format!("SPD bases (tridiagonal, min(i,j), pseudo-random Gram) of every order 2..={} with the upper triangle scaled by 1+δ, δ ∈ {:?}", nmax, deltas));
+    (2..=nmax).into_par_iter().for_each(|n| {
+        let bases: Vec<(&str, Vec<f64>)> = vec![
+            ("tridiag(-1,4,-1)", tridiag(n, -1.0, 4.0, -1.0)),
+            ("minmat", minmat(n)),
+            ("gram", gram_spd(&lcg_dense(n, n, 977 + n as u64), n)),
+        ];
+        for (name, base) in &bases {
+            for d in deltas {
+                for lower in [false, true] {
+                    let mut a = base.clone();
+                    for i in 0..n {
+                        for j in 0..n {
+                            if (j > i) != lower && i != j {
+                                a[i * n + j] *= 1.0 + d;
+                            }
+                        }
+                    }
+                    suite(run, &a, n, &format!("{}, {} triangle*(1+{:e})", name, if lower { "lower" } else { "upper" }, d));
+                    run.nontrivial(1);
+                }
+            }
+        }
+    });
+    for r in ["rhs:scaled", "route:symmetric-positive-diagonal", "route:general", "route:tiny-asymmetric-positive-diagonal", "route:symmetric-other"] {
         run.require_regime(r);
     }
     run.assume("normwise backward error ‖AX−B‖∞/(‖A‖∞‖X‖∞+‖B‖∞) ≤ 64n²u with the residual in double-double; the inverse is judged column by column against the identity");
